@@ -8,6 +8,7 @@ open Common
 let refresh = keyRefreshInterval_ns
 let valid = cacheValidInterval_ns
 let jmax = int_of_z cacheValidMaxJitterMs
+let window = packetUnderlayScheduleWindow_ns
 
 let () =
   let cases = open_in Sys.argv.(1) and impl = open_in Sys.argv.(2) in
@@ -24,6 +25,24 @@ let () =
     | ["T"; a; b] ->
       Printf.printf "0%s\n" (bool_s (timestamp_ok (z_of_dec a) (z_of_dec b)))
     | ["M"; t] -> print_endline (dec_of_z (minute (z_of_dec t)))
+    (* ---- age of the key-holding client underlay ---- *)
+    | ["K"] -> print_endline (dec_of_z window)
+    | ["P"; age] ->
+      let takes = underlay_takes_sessions window (z_of_dec age) in
+      Printf.printf "%s%s\n" (bool_s takes) (bool_s (not takes))
+    | ["U"; c; t_dial; t_send; skew] ->
+      (* a session scheduled at t_dial onto the underlay created at c; request sent at t_send; server skew away *)
+      let c = z_of_dec c and t_dial = z_of_dec t_dial and t_send = z_of_dec t_send and skew = z_of_dec skew in
+      let server = xb_zadd t_send skew in
+      Printf.printf "%s %s %s %s%s\n"
+        (bool_s (underlay_takes_sessions window (xb_zadd t_dial (xb_zopp c))))
+        (dec_of_z (epoch refresh c)) (dec_of_z (minute t_send))
+        (bool_s (key_found refresh (epoch refresh c) server)) (bool_s (timestamp_ok server t_send))
+    | ["X"; c; t_dial; skew] ->
+      (* end to end against a real server mux whose clock is skew ahead *)
+      let c = z_of_dec c and t_dial = z_of_dec t_dial and skew = z_of_dec skew in
+      print_endline (bool_s (underlay_takes_sessions window (xb_zadd t_dial (xb_zopp c)) && open_request_ok refresh c t_dial skew))
+    | ["S"; _] -> print_endline "1"   (* stream underlay: no time slot is consulted after the first segment *)
     | ["C"] -> cache := None; dec := None; print_endline "-"
     | ["L"; now] ->
       let now = z_of_dec now in
